@@ -89,6 +89,9 @@ def OPTIONS():
     add("-ylim", ["-ylim", "0.25,7"], ("standard", "multi"), each_axis(lambda ax, f, h, i: None if tuple(ax.get_ylim()) == (0.25, 7.0) else "ylim is %r" % (ax.get_ylim(),)))
     add("-xticks", ["-xticks", "0,12"], ("standard", "multi"), each_axis(lambda ax, f, h, i: None if [float(x) for x in ax.get_xticks()] == [0.0, 12.0] else "xticks are %r" % list(ax.get_xticks())))
     add("-yticks", ["-yticks", "0.5,1,4"], ("standard", "multi"), each_axis(lambda ax, f, h, i: None if [float(x) for x in ax.get_yticks()] == [0.5, 1.0, 4.0] else "yticks are %r" % list(ax.get_yticks())))
+    # ticks outside the requested limits: the ticks are as given AND the limits stay as given (set_xticks would widen the view)
+    add("-xticks-wide", ["-xticks", "0,12,48"], ("standard",), each_axis(lambda ax, f, h, i: None if [float(x) for x in ax.get_xticks()] == [0.0, 12.0, 48.0] else "xticks are %r" % list(ax.get_xticks())))
+    add("-yticks-wide", ["-yticks", "0.5,1,40"], ("standard",), each_axis(lambda ax, f, h, i: None if [float(x) for x in ax.get_yticks()] == [0.5, 1.0, 40.0] else "yticks are %r" % list(ax.get_yticks())))
     add("-xticklabels", ["-xticks", "0,12", "-xticklabels", "zero,twelve"], ("standard",),
         each_axis(lambda ax, f, h, i: None if [t.get_text() for t in ax.get_xticklabels()] == ["zero", "twelve"] else "xticklabels are %r" % [t.get_text() for t in ax.get_xticklabels()]))
     add("-yticklabels", ["-yticks", "0.5,1", "-yticklabels", "lo,hi"], ("standard",),
@@ -279,7 +282,7 @@ def h_pairs(ctx):
     if names & {"-legfs0"} and names & {"-leg", "-legfs", "-legloc"}:
         ctx.outcome("exclusive")
         return
-    if names == {"-margins", "-nomargin"} or names == {"-xticks", "-xlog"} or ("-xlog" in names and names & {"-xlim", "-xticklabels"}) or ("-ylog" in names and names & {"-yticks", "-yticklabels", "-ylim"}):
+    if names == {"-margins", "-nomargin"} or names == {"-xticks", "-xlog"} or names == {"-xticks-wide", "-xlog"} or names == {"-yticks-wide", "-ylog"} or ("-xlog" in names and names & {"-xlim", "-xticklabels"}) or ("-ylog" in names and names & {"-yticks", "-yticklabels", "-ylim"}):
         ctx.outcome("exclusive")
         return
     if "-leg" in names:
